@@ -1774,6 +1774,12 @@ func (c *PermanodeConstraint) blobMatches(ctx context.Context, s *search, br blo
 			s.ss = corpus.AppendPermanodeAttrValues(
 				s.ss[:0], br, c.Attr, c.At, s.h.owner.KeyID())
 			vals = s.ss
+			if c.ValueInSet != nil {
+				// The nested constraint is matched with the same
+				// search state while vals is being ranged over,
+				// and reuses the scratch slice.
+				vals = append([]string(nil), vals...)
+			}
 		}
 		ok, err := c.permanodeMatchesAttrVals(ctx, s, vals)
 		if !ok || err != nil {
